@@ -24,7 +24,7 @@ EXPLANATION = ('Preservation obligations of the attachment forest, checked at ea
                'an abstract heap (exact write sets per path), must-pass / guard rules for the detach paths of freeSlot and PUT_COPY, '
                'who-may-write on the three link fields, and the base-chain rebuild at finalisation.  The forest property itself under '
                'arbitrary rule sequences is an induction over these steps and is not mechanised.')
-FLOORS = {'TREEWRITERS': 5, 'ATTACH': 7, 'LISTOPS': 9, 'DETACH': 11, 'BASECHAIN': 3}
+FLOORS = {'TREEWRITERS': 5, 'ATTACH': 7, 'LISTOPS': 9, 'DETACH': 12, 'BASECHAIN': 3}
 
 
 def treewriters(run, fx):
@@ -585,6 +585,30 @@ def garbage_after_action(run, rule='DETACH'):
             run.held(rule, inst, fn.where(), '%d doAction call(s), each followed by collectGarbage unless deletes() is false' % len(acts))
 
 
+def sentinel_push(run, fx, rule='DETACH'):
+    """SlotMap::collectGarbage looks at the entries begin() .. end()-1: the slot map always ends in one entry for the slot BEHIND the
+    match (null when the match ran to the end of the segment).  So the push that follows the matching loop of Pass::runFSM is
+    unconditional: on every path from the loop exit to `return true` there is a pushSlot whose execution does not depend on the slot
+    being non-null -- otherwise the last MATCHED slot sits in the place collectGarbage skips, and a deleted last slot is never freed."""
+    from .util import loop_bodies
+    fn = fx.one('graphite2::Pass::runFSM')
+    lb = loop_bodies(fn)
+    inloop = set().union(*lb.values()) if lb else set()
+    pushes = [e for e in calls_in(fn, 'graphite2::SlotMap::pushSlot') if fn.block_of[e['i']] not in inloop]
+    inst = 'runFSM ends the slot map with the slot behind the match, null or not'
+    if not pushes:
+        run.violated(rule, inst, fn.where(), 'Pass::runFSM no longer pushes the slot behind the match after its matching loop')
+        return
+    arg = fn.render(fn.strip_all_casts(fn.N(pushes[0]['args'][0])))
+    cond = [f for e in pushes for f in dom.facts_at(fn, e['i']) if f[0] == arg and f[1] == '!=' and f[2] == '0']
+    uncond = [e for e in pushes if not any(f[0] == arg and f[1] == '!=' and f[2] == '0' for f in dom.facts_at(fn, e['i']))]
+    if uncond:
+        run.held(rule, inst, fn.loc(uncond[0]), 'pushSlot(%s) after the loop, under no test of %s' % (arg, arg))
+    else:
+        run.violated(rule, inst, fn.loc(pushes[0]), 'the final pushSlot(%s) of Pass::runFSM only runs when %s is not null: when a match reaches the end of the segment the slot map ends with the '
+                     'last matched slot, the entry SlotMap::collectGarbage never looks at -- a deleted last slot stays in its parent\'s child chain (and keeps its children) after it left the segment' % (arg, arg))
+
+
 def garbage_sees_deleted(run, fx, rule='DETACH'):
     """a deleted slot leaves its parent's child chain in Segment::freeSlot, and SlotMap::collectGarbage reaches freeSlot only for the
     slots it finds in the slot map.  TEMP_COPY replaces a rule slot's map entry by a scratch copy, so no TEMP_COPY may be inserted for
@@ -633,6 +657,7 @@ def run(run):
     vm = R.get_vm(run)
     fx = vm.fx
     garbage_sees_deleted(run, fx)
+    sentinel_push(run, fx)
     garbage_after_action(run)
     treewriters(run, fx)
     attach(run, fx)
